@@ -83,3 +83,12 @@ Theorem C02_unsuccessful_keeps_population : forall s o j,
   (forall v, snd (step s o) <> Ok v) -> held (fst (step s o)) j = held s j.
 Proof. exact held_unchanged_unless_ok. Qed.
 Print Assumptions C02_unsuccessful_keeps_population.
+
+(* registers are never empty at a quiescent point, and a node keeps at most as many registers as it simulates qubits *)
+From SQ Require Import Net.NonEmpty.
+Theorem C02_registers_nonempty : forall s i r, reachable s -> In r (regs (nth_node s i)) -> 0 < r_n r.
+Proof. exact registers_nonempty. Qed.
+Print Assumptions C02_registers_nonempty.
+Theorem C02_registers_le_sims : forall s i, reachable s -> length (regs (nth_node s i)) <= length (sims (nth_node s i)).
+Proof. exact registers_le_sims. Qed.
+Print Assumptions C02_registers_le_sims.
